@@ -97,6 +97,21 @@ def ref_parse_timezone(s):
         raise RefError("timezone out of range") from None
 
 
+
+def tupleu_types(t: T, n: int):
+    """element types of a tuple with an unpacked segment, for an actual length n (None if too short)"""
+    np_, mode, nm = t.extra
+    pre, mid, suf = t.args[:np_], t.args[np_:np_ + nm], t.args[np_ + nm:]
+    if mode == "var":
+        k = n - len(pre) - len(suf)
+        if k < 0:
+            return None
+        return pre + [mid[0]] * k + suf
+    if n < len(pre) + len(mid) + len(suf):
+        return None
+    return pre + mid + suf
+
+
 def member_matches(t: T, v, fam: Family, ns) -> bool:
     """does value v conform to member type t (used to pick the union member on encode)"""
     k = t.kind
@@ -143,6 +158,11 @@ def ref_encode(t: T, v, fam: Family, ns):
         return [ref_encode(t.args[0], x, fam, ns) for x in v]
     if k == "tuplefix":
         return [ref_encode(a, x, fam, ns) for a, x in zip(t.args, v)]
+    if k == "tupleu":
+        tys = tupleu_types(t, len(v))
+        if tys is None:
+            raise RefError("tuple too short")
+        return [ref_encode(a, x, fam, ns) for a, x in zip(tys, v)]
     if k in ("dict", "mapping", "ordereddict"):
         return {ref_encode(t.args[0], a, fam, ns): ref_encode(t.args[1], b, fam, ns) for a, b in v.items()}
     if k == "counter":
@@ -253,6 +273,23 @@ def ref_decode(t: T, d, fam: Family, ns):
                 raise RefError(f"index {i}: {type(e).__name__}") from None
             out.append(ref_decode(a, x, fam, ns))
         return tuple(out)
+    if k == "tupleu":
+        # documented: the unpacked segment takes what lies between the fixed head and tail;
+        # (a fixed segment takes its first items, surplus ignored)
+        if not isinstance(d, (list, tuple, str)):     # a str is indexed / sliced character-wise, like plain tuples
+            raise RefError("tuple with unpacked segment from a non-sequence")
+        np_, mode, nm = t.extra
+        pre, mid, suf = t.args[:np_], t.args[np_:np_ + nm], t.args[np_ + nm:]
+        if len(d) < len(pre) + len(suf) + (nm if mode == "fix" else 0):
+            raise RefError("too few items")
+        head = [ref_decode(a, x, fam, ns) for a, x in zip(pre, d[:len(pre)])]
+        middle = list(d[len(pre):len(d) - len(suf)])
+        if mode == "var":
+            m = [ref_decode(mid[0], x, fam, ns) for x in middle]
+        else:
+            m = [ref_decode(a, x, fam, ns) for a, x in zip(mid, middle)]
+        tail = [ref_decode(a, x, fam, ns) for a, x in zip(suf, d[len(d) - len(suf):])] if suf else []
+        return tuple(head + m + tail)
     if k in ("dict", "mapping", "ordereddict"):
         try:
             items = list(d.items())
@@ -345,6 +382,11 @@ def conforms(t: T, r, fam: Family, ns) -> bool:
         return type(r) is frozenset and all(conforms(t.args[0], x, fam, ns) for x in r)
     if k == "tuplefix":
         return type(r) is tuple and len(r) == len(t.args) and all(conforms(a, x, fam, ns) for a, x in zip(t.args, r))
+    if k == "tupleu":
+        if type(r) is not tuple:
+            return False
+        tys = tupleu_types(t, len(r))
+        return tys is not None and all(conforms(a, x, fam, ns) for a, x in zip(tys, r))
     if k in ("dict", "mapping"):
         return type(r) is dict and all(conforms(t.args[0], a, fam, ns) and conforms(t.args[1], b, fam, ns) for a, b in r.items())
     if k == "ordereddict":
